@@ -42,6 +42,8 @@ pub struct St {
     handles: Vec<std::thread::JoinHandle<()>>,
     peer_closed: bool,
     sent_bytes: usize,
+    /// the daemon thread wrote (or tried to write) a reply that the peer never read
+    wrote_after_close: bool,
     /// step counters for "was the shutdown flag stored before the daemon thread exited?"
     step_no: usize,
     flag_step: Option<usize>,
@@ -103,7 +105,7 @@ impl Scenario for Sc16 {
             );
         }
         x.ctl.quiesce(self.expected_threads())?;
-        Ok(St { h, p_pos: 0, waited: None, handles, peer_closed: false, sent_bytes: 0, step_no: 0, flag_step: None, d_exit_step: None, slot })
+        Ok(St { h, p_pos: 0, waited: None, handles, peer_closed: false, sent_bytes: 0, wrote_after_close: false, step_no: 0, flag_step: None, d_exit_step: None, slot })
     }
     fn env_names(&self) -> Vec<String> {
         vec!["P".into()]
@@ -136,6 +138,12 @@ impl Scenario for Sc16 {
             // the flag is stored in it
             if n.starts_with("shutdown") && info.point == Some(Point::User("start")) && s.flag_step.is_none() {
                 s.flag_step = Some(s.step_no);
+            }
+            // a reply written after the peer closed fails with a broken socket; a peer that closes with
+            // a reply still unread (this script never reads) resets the connection: in both cases the
+            // daemon does not see a clean disconnect while reading, and either result is accepted
+            if n.starts_with("vmc-daemon") && matches!(info.point, Some(Point::Send(_))) {
+                s.wrote_after_close = true;
             }
         }
         if s.d_exit_step.is_none() && x.ctl.snapshot().iter().any(|p| p.0.starts_with("vmc-daemon") && p.1 == PState::Exited) {
@@ -202,7 +210,7 @@ impl Scenario for Sc16 {
         } else {
             // without a shutdown request a disconnect seen while reading is an error; a peer that
             // vanished while the daemon wrote (SocketBroken) may be reported either way
-            let reading_disconnect = s.peer_closed || self.label.contains("invalid");
+            let reading_disconnect = (s.peer_closed && !s.wrote_after_close) || self.label.contains("invalid");
             if reading_disconnect && r.is_ok() && !txt.contains("SocketBroken") {
                 // the daemon only reads in these scripts (no replies are written), so Ok is wrong
                 x.violation("C16:wait-succeeds-after-disconnect", &format!("no shutdown was requested and the peer {} but wait() returned Ok", if s.peer_closed { "disconnected" } else { "sent an invalid request" }));
@@ -279,6 +287,9 @@ fn scenarios(thorough: bool) -> Vec<Sc16> {
         ("close-at-15".into(), vec![PStep::Send(req[..15].to_vec()), PStep::Close]),
         ("close-after-request".into(), vec![PStep::Send(req.clone()), PStep::Close]),
         ("invalid-header".into(), vec![PStep::Send(header(200, F_VERSION, 0).to_vec())]),
+        // a request that is answered: the shutdown can fall before / after the daemon writes the reply
+        ("request-with-reply".into(), vec![PStep::Send(message(GET_FEATURES, F_VERSION, &[]))]),
+        ("request-with-reply-then-close".into(), vec![PStep::Send(message(GET_FEATURES, F_VERSION, &[])), PStep::Close]),
     ];
     if thorough {
         for c in [1usize, 11, 13, 19] {
@@ -288,7 +299,7 @@ fn scenarios(thorough: bool) -> Vec<Sc16> {
     let mut v = Vec::new();
     for callers in 0..=3usize {
         for (l, p) in &peers {
-            if callers == 3 && !thorough && !["idle", "two-fragments", "close-at-12"].contains(&l.as_str()) {
+            if callers == 3 && !thorough && !["idle", "two-fragments", "close-at-12", "request-with-reply"].contains(&l.as_str()) {
                 continue;
             }
             if callers == 0 && (l == "idle" || l == "header-only") {
@@ -454,7 +465,7 @@ pub fn run(rep: &mut Report) {
     rep.extra.insert("scenarios".into(), json!(done));
     rep.extra.insert("scenarios_total".into(), json!(scs.len()));
     rep.extra.insert("per_scenario".into(), json!(per_scenario));
-    rep.rule = "E2: for 0..=3 shutdown callers x peer behaviours {idle, header only, full request, 2 and 3 fragments, close at byte 0/5/12/15/after the request (more offsets at thorough), invalid header}: all schedules of {daemon thread, shutdown callers (a point before the call and at the socket shutdown, i.e. between flag store and socket shutdown), peer script} with at most 2 (3 at thorough) preemptions; at quiescence the explorer performs wait(), reads the peer socket and starts a second connection on the same listener; in the '+waiter' scenarios (0..=2 callers) wait() is instead called by a real thread that enters it at any point of the schedule (before or after the shutdown requests / the disconnect) and blocks in the join. Sequential part: peer close at every byte offset 0..=20 of a request x {start+wait, serve()} and the process's thread count after dropping all daemons. Non-trivial = schedules with a real choice / offsets whose result mapping was verified".into();
+    rep.rule = "E2: for 0..=3 shutdown callers x peer behaviours {idle, header only, full request, 2 and 3 fragments, close at byte 0/5/12/15/after the request (more offsets at thorough), invalid header, a request that is answered (shutdown before / after the reply is written), answered request then close}: all schedules of {daemon thread, shutdown callers (a point before the call and at the socket shutdown, i.e. between flag store and socket shutdown), peer script} with at most 2 (3 at thorough) preemptions; at quiescence the explorer performs wait(), reads the peer socket and starts a second connection on the same listener; in the '+waiter' scenarios (0..=2 callers) wait() is instead called by a real thread that enters it at any point of the schedule (before or after the shutdown requests / the disconnect) and blocks in the join. Sequential part: peer close at every byte offset 0..=20 of a request x {start+wait, serve()} and the process's thread count after dropping all daemons. Non-trivial = schedules with a real choice / offsets whose result mapping was verified".into();
     rep.assumptions.push("without a waiter thread wait() is executed by the explorer once the daemon thread has exited; 'would never return' is decided when the daemon thread is disabled forever; a thread blocked in the join is recognised through /proc (futex wait)".into());
 }
 
